@@ -224,9 +224,7 @@ def validate(acc, sc, p):
         need(sens[(2, 0)] == p.get("r_sensitive", 10), "r_sensitive")
     if len(user) == 1:
         need(sens[user[0]] == p.get("r_user", 10), "r_user")
-        if not p.get("random_goal"):
-            need(user[0] == (N - 1, subnets[-1] - 1), "default_user_goal",
-                 user[0])
+        # (which user host is chosen is not part of the statement)
     # firewall
     fw = d["firewall"]
     if ok_shape:
